@@ -19,7 +19,7 @@ var vAlgo = oids.New(1, 2, 3)
 type vAddr uint8
 
 func (a vAddr) MarshalText() ([]byte, error) { return []byte{'a' + byte(a)}, nil }
-func (a vAddr) String() string                { return string([]byte{'a' + byte(a)}) }
+func (a vAddr) String() string               { return string([]byte{'a' + byte(a)}) }
 
 type vInner struct{ told *int }
 
@@ -42,7 +42,7 @@ func vFP(pub *x509.PublicKey) (ret p2p.PeerID) {
 }
 
 // engine intrinsics (see engine/symgo/models.py): natively unused
-func vChanSends(c *p2pke.Channel) int            { return 0 }
+func vChanSends(c *p2pke.Channel) int           { return 0 }
 func vChanAccept(c *p2pke.Channel, k byte) bool { return false }
 
 type vGot struct {
@@ -66,7 +66,7 @@ func vNewSwarm(told *int, wlM, wlV byte) *Swarm[vAddr] {
 	return s
 }
 
-//verif: replay=none stubs=channel sched=coop time=concrete cover=delivered,nothing bounds="p2pkeswarm.handleMessage: any inbound packet outcome of the channel (nothing / error / application bytes), whitelist (id&m)==v symbolic: a delivery carries Src.ID = fingerprint(channel.RemoteKey()), Src.Addr = transport source, Dst = local id; the inbound channel's AcceptKey is exactly the whitelist applied to fingerprint(key)@source"
+// verif: replay=none stubs=channel sched=coop time=concrete cover=delivered,nothing bounds="p2pkeswarm.handleMessage: any inbound packet outcome of the channel (nothing / error / application bytes), whitelist (id&m)==v symbolic: a delivery carries Src.ID = fingerprint(channel.RemoteKey()), Src.Addr = transport source, Dst = local id; the inbound channel's AcceptKey is exactly the whitelist applied to fingerprint(key)@source"
 func VH_C04_p2pkeswarmInbound() bool {
 	told := 0
 	wlM, wlV := vByte(), vByte()
@@ -98,7 +98,7 @@ func VH_C04_p2pkeswarmInbound() bool {
 	return true
 }
 
-//verif: replay=none stubs=channel time=concrete unwind=8 cover=sent,refused bounds="p2pkeswarm.Tell to identity X at a transport address: the payload is handed to a channel only if fingerprint(channel.RemoteKey()) == X; the outbound channel's AcceptKey accepts exactly keys whose fingerprint is X; over-MTU refused; at most 3 re-dials before the context expires"
+// verif: replay=none stubs=channel time=concrete unwind=8 cover=sent,refused bounds="p2pkeswarm.Tell to identity X at a transport address: the payload is handed to a channel only if fingerprint(channel.RemoteKey()) == X; the outbound channel's AcceptKey accepts exactly keys whose fingerprint is X; over-MTU refused; at most 3 re-dials before the context expires"
 func VH_C04_p2pkeswarmOutbound() bool {
 	told := 0
 	s := vNewSwarm(&told, 0, 0)
